@@ -55,6 +55,10 @@ func propC08(c c08Case) *Outcome {
 		return c08RespCount(c, o)
 	case "unary-nil":
 		return c08UnaryNil(c, o)
+	case "json-two":
+		return c08JSONTwo(c, o)
+	case "stream-nil":
+		return c08StreamNil(c, o)
 	case "unary-both":
 		// a unary handler (or interceptor) returns a response value next to a non-nil error: the error is the outcome
 		o.NonTrivial = true
@@ -209,6 +213,97 @@ func c08UnaryNil(c c08Case, o *Outcome) *Outcome {
 	return o
 }
 
+// c08JSONTwo: a unary method called with the JSON content type and a body of two JSON documents - two request messages
+// to a method that takes one: rejected, the handler does not run.
+func c08JSONTwo(c c08Case, o *Outcome) *Outcome {
+	o.NonTrivial = true
+	o.class("json-body-with-%d-documents", c.NReq)
+	runs := 0
+	var mu sync.Mutex
+	svc := &Service{Unary: func(ctx context.Context, req *pb.Message) (*pb.Message, error) {
+		mu.Lock()
+		runs++
+		mu.Unlock()
+		return &pb.Message{Count: req.Count}, nil
+	}}
+	car := newCarrier(c.Carrier, newServiceDesc(), svc, carrierOpts{})
+	defer car.Close()
+	var docs []string
+	for i := 0; i < c.NReq; i++ {
+		b, _ := protojson.Marshal(&pb.Message{Count: int32(i + 1), Payload: []byte("doc")})
+		docs = append(docs, string(b))
+	}
+	body := strings.Join(docs, c.NilMsg) // NilMsg: what stands between two documents
+	req := httptest.NewRequest("POST", "http://verif.test"+mUnary, strings.NewReader(body))
+	req.Header.Set("Content-Type", httpgrpc.ApplicationJson)
+	w := httptest.NewRecorder()
+	panicked := ""
+	func() {
+		defer func() {
+			if r := recover(); r != nil {
+				panicked = fmt.Sprint(r)
+			}
+		}()
+		car.HTTPHandler.ServeHTTP(w, req)
+	}()
+	res := w.Result()
+	gs := res.Header.Get("X-Grpc-Status")
+	mu.Lock()
+	defer mu.Unlock()
+	o.Observed = map[string]interface{}{"body": body, "status": res.StatusCode, "x-grpc-status": gs, "handler_runs": runs, "panic": panicked}
+	ok := res.StatusCode >= 200 && res.StatusCode < 300 && (gs == "" || gs[0] == '0')
+	if c.NReq == 1 {
+		if runs != 1 || !ok {
+			return o.failf("%s: one JSON document: handler ran %d times, HTTP %d, X-GRPC-Status %q", c.Carrier, runs, res.StatusCode, gs)
+		}
+		return o
+	}
+	if runs != 0 {
+		return o.failf("%s: a JSON request body of %d documents (two request messages) to a unary method: the handler ran (HTTP %d)", c.Carrier, c.NReq, res.StatusCode)
+	}
+	if ok && panicked == "" {
+		return o.failf("%s: a JSON request body of %d documents to a unary method was answered with success", c.Carrier, c.NReq)
+	}
+	return o
+}
+
+// c08StreamNil: a client-streaming handler hands a nil message pointer to its one send (a summary that was never
+// built): that is no response - the caller gets an error, not an empty message.
+func c08StreamNil(c c08Case, o *Outcome) *Outcome {
+	o.NonTrivial = true
+	o.class("single-response-handler-sends-a-nil-message")
+	svc := &Service{Stream: func(kind string, stream grpc.ServerStream) error {
+		for stream.RecvMsg(new(pb.Message)) == nil {
+		}
+		var summary *pb.Message
+		return stream.SendMsg(summary)
+	}}
+	car := newCarrier(c.Carrier, newServiceDesc(), svc, carrierOpts{})
+	defer car.Close()
+	out := &pb.Message{Count: 99}
+	var err error
+	stall := guard("call", func() {
+		ctx, cancel := context.WithCancel(context.Background())
+		defer cancel()
+		var cs grpc.ClientStream
+		cs, err = car.Conn.NewStream(ctx, streamDescOf(kClientStream), mClientStream)
+		if err != nil {
+			return
+		}
+		cs.SendMsg(&pb.Message{Count: 1})
+		cs.CloseSend()
+		err = cs.RecvMsg(out)
+	})
+	if stall != "" {
+		return o.failf("stall: %s", stall)
+	}
+	o.Observed = observeErr(err)
+	if err == nil {
+		return o.failf("%s: client-streaming handler passed a nil message to its send; the caller reports success with %v", c.Carrier, out)
+	}
+	return o
+}
+
 func c08ReqCount(c c08Case, o *Outcome) *Outcome {
 	o.class("requests=%d/method=%s/first-empty=%v", c.NReq, c.Method, c.FirstEmpty)
 	o.NonTrivial = c.NReq != 1
@@ -350,6 +445,13 @@ func c08ReqCount(c c08Case, o *Outcome) *Outcome {
 }
 
 func genC08(t *rapid.T) c08Case {
+	if rapid.IntRange(0, 19).Draw(t, "jsontwo") == 0 {
+		return c08Case{Mode: "json-two", Carrier: rapid.SampledFrom([]string{cHTTP, cHTTPMux, cHTTPPer}).Draw(t, "jcarrier"), NReq: rapid.SampledFrom([]int{1, 2, 2, 3}).Draw(t, "jdocs"),
+			NilMsg: rapid.SampledFrom([]string{"", "\n", " ", "\r\n\t"}).Draw(t, "jsep")}
+	}
+	if rapid.IntRange(0, 29).Draw(t, "streamnil") == 0 {
+		return c08Case{Mode: "stream-nil", Carrier: rapid.SampledFrom(sutCarriers).Draw(t, "sncarrier")}
+	}
 	switch rapid.IntRange(0, 9).Draw(t, "mode") {
 	case 0:
 		c := c08Case{Mode: "unary-nil", Carrier: rapid.SampledFrom(sutCarriers).Draw(t, "carrier"), NilKind: rapid.SampledFrom([]string{"untyped", "typed"}).Draw(t, "nilkind"), Enc: "proto"}
